@@ -250,13 +250,17 @@ def programs():
 
 def dryoc_rlib(ctx, release=False):
     """builds the nightly harness from /repo's working tree and returns (rlib of dryoc, deps dir)"""
-    ctx["build"]("ni-rel" if release else "ni")
+    # only the crate under test is built (harness/rlib depends on dryoc and contains nothing else): a change that makes a
+    # permitted program fail to compile may break the monitors' own sources too, and must still be judged here
     env = dict(ctx["env"])
-    tdir = os.path.join(ctx["cache"], "target-nightly")
+    tdir = os.path.join(ctx["cache"], "target-rlib")
     env["CARGO_TARGET_DIR"] = tdir
+    crate = os.path.join(ctx["root"], "harness", "rlib")
+    if not os.path.exists(os.path.join(crate, "Cargo.lock")) and os.path.exists("/repo/Cargo.lock"):
+        shutil.copy("/repo/Cargo.lock", os.path.join(crate, "Cargo.lock"))
     prof = ["--release"] if release else ["--profile", "verif"]
-    p = subprocess.run(["cargo", "+nightly", "build"] + prof + ["--bin", "vmon", "--features", "nightly", "--offline", "--message-format=json"],
-                       cwd=os.path.join(ctx["root"], "harness"), env=env, stdout=subprocess.PIPE, stderr=subprocess.PIPE, text=True)
+    p = subprocess.run(["cargo", "+nightly", "build"] + prof + ["--offline", "--message-format=json"],
+                       cwd=crate, env=env, stdout=subprocess.PIPE, stderr=subprocess.PIPE, text=True)
     rlib = None
     for line in p.stdout.splitlines():
         if not line.startswith("{"):
@@ -270,7 +274,7 @@ def dryoc_rlib(ctx, release=False):
                 if f.endswith(".rlib"):
                     rlib = f
     if rlib is None:
-        raise ctx["Inconclusive"]("could not locate the dryoc rlib of the nightly build")
+        raise ctx["Inconclusive"]("could not build / locate the dryoc rlib of the nightly build: " + p.stderr[-400:].replace("\n", " | "))
     return rlib, os.path.join(tdir, "release" if release else "verif", "deps")
 
 
